@@ -6,7 +6,7 @@ specification (Spec/Xml.lean: recogniser `wf` of well-formed XML; Spec/Svg.lean:
 Printed numbers are arbitrary attribute-safe tokens (`SafeNums ν`), colours given as options are attribute-safe
 strings; names are arbitrary lists of code points.
 -/
-import SkNet.Lemmas.SvgCount
+import SkNet.Lemmas.SvgFinal
 import SkNet.Spec.Svg
 
 namespace SkNet.C20
@@ -253,6 +253,81 @@ theorem visualizeDendrogram_counts (ν : Nums) (a : DendroArgs) (d : Drawing) (h
     have hs := Shape.append (dendroNames_shape hn htext) hp
     have := docMeets_svgDoc hν true false [] (fun _ hc => by simp at hc) hi hs
     simpa [writeFile, expectedDendrogram, hn, hlen, Summary.add, plainOf_displayed, Function.comp_def] using this
+
+/-- the inputs of `visualize_graph` the count statement is about: a membership matrix whose column indices are within
+    its shape, non-negative stored weights, a canvas with a non-zero dimension and a non-zero scale, node indices of
+    the stored entries within the layout -/
+structure GraphDomain (a : GraphArgs) : Prop where
+  probs : ProbsOk a.probs
+  weights : NonNeg a.entries
+  canvas : truthy a.width = true ∨ truthy a.height = true
+  scale : a.lay.scale ≠ 0
+  indices : ∀ e ∈ a.entries, e.1 < a.pos.length ∧ e.2.1 < a.pos.length
+
+/-- `visualize_graph`: whenever it returns, the returned string — read back by the recogniser — is a well-formed
+    document with root `svg` that contains
+    * one node shape per entry of `node_order`: one `circle`, or one sector `path` per label when the node is drawn as
+      a pie chart (more than one stored membership, non-zero sum);
+    * one edge `path` per displayed edge — stored entry of non-zero weight, or edge label on a pair without edge —
+      except arrows between two nodes that were given the same position (`rescale` keeps distinct positions distinct:
+      `finalPos_coincide`); `np.argsort` may visit the entries in any order;
+    * one `text` element per node `0 … n-1` in this order when names are given, the `i`-th showing the plain characters
+      of `names[i]`. -/
+theorem visualizeGraph_counts (ν : Nums) (a : GraphArgs) (d : Drawing) (hν : SafeNums ν) (ha : SafeGraphArgs a)
+    (hd : GraphDomain a) (h : visualizeGraph ν a = .ok d) : docMeets (render d.svg) (expectedGraph a) = true :=
+  visualizeGraph_docMeets ν a d hν ha.nodeColor ha.edgeColor ha.labelColors hd.probs hd.weights hd.canvas hd.scale
+    hd.indices h
+
+example : GraphDomain exampleGraph :=
+  ⟨fun p hp => by simp [exampleGraph] at hp, by intro e he; simp [exampleGraph] at he; rcases he with h | h | h <;> subst h <;> decide,
+   Or.inl (by decide), by decide,
+   by intro e he; simp [exampleGraph] at he; rcases he with h | h | h <;> subst h <;> decide⟩
+
+/-- The only decision the drawing code takes on numbers: on a canvas with a non-zero dimension and a non-zero scale,
+    two nodes are drawn at the same place iff they were given the same position. -/
+theorem rescale_keeps_positions_apart (a : GraphArgs) (pos : List (Rat × Rat)) (h : finalPos a = .ok pos)
+    (hnd : truthy a.width = true ∨ truthy a.height = true) (hs : a.lay.scale ≠ 0)
+    (i j : Nat) (hi : i < a.pos.length) (hj : j < a.pos.length) :
+    ((pos.getD j (0, 0)).1 - (pos.getD i (0, 0)).1 = 0 ∧ (pos.getD j (0, 0)).2 - (pos.getD i (0, 0)).2 = 0) ↔
+      a.pos.getD i (0, 0) = a.pos.getD j (0, 0) :=
+  finalPos_coincide a pos h hnd hs i j hi hj
+
+def negativeWeightGraph : GraphArgs :=
+  { n := 3, entries := [(0, 1, -1), (0, 2, 1)], pos := [(0, 0), (1, 0), (2, 1)], directed := some false }
+
+/-- With a negative stored weight the count statement is false for the code as it is: `adjacency > 0` drops the
+    entry, `edge_order` is numbered over the positive entries only, and one displayed edge is not drawn
+    (two stored edges, one path). Negative weights are outside the domain of the property (`GraphDomain.weights`). -/
+theorem negative_weight_loses_an_edge :
+    (match visualizeGraph νhash negativeWeightGraph with
+     | .ok d => (observed d.svg).edgePaths
+     | .error _ => 0) = 1 := by decide +kernel
+
+/-- the inputs of `visualize_bigraph` the count statement is about -/
+structure BigraphDomain (a : BigraphArgs) : Prop where
+  probsRow : ProbsOk a.probsRow
+  probsCol : ProbsOk a.probsCol
+  weights : NonNeg a.entries
+
+/-- `visualize_bigraph`: whenever it returns, the returned string — read back by the recogniser — is a well-formed
+    document with root `svg` that contains one node shape per row and per column (circle, or one sector per label for
+    a pie chart), one edge `path` per stored entry of non-zero weight and per edge label on a pair without edge, and one
+    `text` element per row name then per column name, each showing the plain characters of its name. -/
+theorem visualizeBigraph_counts (ν : Nums) (a : BigraphArgs) (d : Drawing) (hν : SafeNums ν)
+    (ha : SafeBigraphArgs a) (hd : BigraphDomain a) (h : visualizeBigraph ν a = .ok d) :
+    docMeets (render d.svg) (expectedBigraph a) = true :=
+  visualizeBigraph_docMeets ν a d hν ha.colorRow ha.colorCol ha.edgeColor ha.labelColors hd.probsRow hd.probsCol
+    hd.weights h
+
+example : BigraphDomain exampleBigraph :=
+  ⟨fun p hp => by simp [exampleBigraph] at hp,
+   by intro p hp row hrow e he
+      simp [exampleBigraph] at hp
+      subst hp
+      simp at hrow
+      rcases hrow with h | h <;> subst h <;> simp at he
+      rcases he with h | h <;> subst h <;> decide,
+   by intro e he; simp [exampleBigraph] at he; rcases he with h | h <;> subst h <;> decide⟩
 
 /-! ## ★ `file_same` : the string written is the string returned -/
 
